@@ -11,10 +11,9 @@ From AG Require Import Base.Val Str.MetaVar Tree.Tree Tree.Wf Match.MatchNode Ma
 Import ListNotations.
 
 (* every match the matcher reports — any fuel, any start environment, all five strictness levels —
-   has an alignment; [pwf] excludes only pattern nodes whose children are all MISSING (issue #1688) *)
+   has an alignment, including pattern nodes without children (all children MISSING, issue #1688) *)
 Theorem C03_sound :
   forall fuel s src g c e a',
-    pwf g = true ->
     run fuel s src (RNode g c) (AEnv e) = (ROne MatchedBoth, a') ->
     Aligned s src g c.
 Proof. exact AlignProofs.C03_sound. Qed.
@@ -22,7 +21,6 @@ Print Assumptions C03_sound.
 
 Theorem C03_sound_pattern :
   forall src p c e e',
-    pwf (p_node p) = true ->
     pattern_match src p c e = Matched e' ->
     Aligned (p_strict p) src (p_node p) c.
 Proof. exact AlignProofs.C03_sound_pattern. Qed.
@@ -31,7 +29,7 @@ Print Assumptions C03_sound_pattern.
 (* the reported prefix length is positive, never exceeds the node and ends where a descendant ends *)
 Theorem C03_len :
   forall src p c n,
-    pwf (p_node p) = true -> wfb c = true ->
+    wfb c = true ->
     match_len src p c = LenSome n ->
     (0 < n <= tend c - tstart c)%N /\ ends_at_descendant c (tstart c + n).
 Proof. exact AlignProofs.C03_len. Qed.
